@@ -130,3 +130,24 @@ func TestReplay_C10_RemoveRemoteDeviceLeavesOtherPeer(t *testing.T) {
 		t.Errorf("C10 violated: the other peer has %d subscriptions / %d bindings left (want 1 / 1)", len(sm.Subscriptions(b.dev)), len(bm.Bindings(b.dev)))
 	}
 }
+
+// Replay for post#device-event-last of (*DeviceLocal).RemoveRemoteDeviceConnection (C10): the last event of the teardown is
+// the removal of this device, naming its SKI and carrying the device object that was connected.
+func TestReplay_C10_RemoveRemoteDeviceConnectionPublishesTheDevice(t *testing.T) {
+	w := rpNewWorld(t, 2)
+	a := w.peers[0]
+	var last *api.EventPayload
+	h := &rpEventLog{f: func(pl api.EventPayload) { p := pl; last = &p }}
+	_ = Events.subscribe(api.EventHandlerLevelCore, h)
+	defer func() { _ = Events.unsubscribe(api.EventHandlerLevelCore, h) }()
+	w.local.RemoveRemoteDeviceConnection(a.ski)
+	if last == nil {
+		t.Fatalf("C10 violated: no event for the removed device")
+	}
+	if last.EventType != api.EventTypeDeviceChange || last.ChangeType != api.ElementChangeRemove || last.Ski != a.ski {
+		t.Errorf("C10 violated: last event of the teardown is %v/%v for %q, want device removal for %q", last.EventType, last.ChangeType, last.Ski, a.ski)
+	}
+	if last.Device == nil || last.Device.(*DeviceRemote) != a.dev {
+		t.Errorf("C10 violated: the device removal event does not carry the removed device (%v)", last.Device)
+	}
+}
